@@ -5,7 +5,7 @@ import json, os, re, shutil, subprocess, sys, tempfile, time, hashlib
 ROOT = os.path.dirname(os.path.dirname(os.path.abspath(__file__)))
 SPECS = os.path.join(ROOT, "specs")
 HARNESS = os.path.join(ROOT, "harness")
-REPO = "/repo"
+REPO = os.environ.get("VERIF_REPO", "/repo")   # checks always use /repo unless a scratch tree is named explicitly
 JAVA_CP = "/opt/veriftools/tla/tla2tools.jar:/opt/veriftools/tla/CommunityModules-deps.jar"
 
 EXIT_OK, EXIT_VIOLATION, EXIT_INFRA = 0, 1, 2
@@ -185,16 +185,27 @@ class Check:
 
     # ---------------------------------------------------------------- Go harness
     def prepare_harness(self):
-        shutil.copy(os.path.join(REPO, "go.sum"), os.path.join(HARNESS, "go.sum"))
-        extra = os.path.join(HARNESS, "go.sum.extra")
+        """Returns the directory of the harness module to build in.  For /repo that is /verif/harness itself;
+        for a scratch tree (VERIF_REPO, used only to try seeded changes without touching /repo) it is a copy
+        whose replace directive points at that tree."""
+        hdir = HARNESS
+        if REPO != "/repo":
+            hdir = os.path.join(self.scratch, "harness")
+            if not os.path.isdir(hdir):
+                shutil.copytree(HARNESS, hdir)
+                gm = open(os.path.join(hdir, "go.mod")).read().replace("=> /repo", "=> " + REPO)
+                open(os.path.join(hdir, "go.mod"), "w").write(gm)
+        shutil.copy(os.path.join(REPO, "go.sum"), os.path.join(hdir, "go.sum"))
+        extra = os.path.join(hdir, "go.sum.extra")
         if os.path.exists(extra):
-            with open(os.path.join(HARNESS, "go.sum"), "a") as f:
+            with open(os.path.join(hdir, "go.sum"), "a") as f:
                 f.write(open(extra).read())
+        return hdir
 
     def gotest(self, pkg, run, env=None, timeout=900, tag=None, args=None):
         """Run one Go harness test; the test writes its JSON result to $VERIF_OUT.
         Returns the parsed result dict.  Build failures / crashes of the driver raise Infra."""
-        self.prepare_harness()
+        hdir = self.prepare_harness()
         outp = os.path.join(self.scratch, "go-%d.json" % len(self.go_runs))
         logp = os.path.join(self.scratch, "go-%d.log" % len(self.go_runs))
         e = goenv(env)
@@ -202,6 +213,7 @@ class Check:
         e["VERIF_SEED"] = str(self.seed)
         e["VERIF_TIER"] = self.tier
         e["VERIF_SCRATCH"] = self.scratch
+        e["VERIF_REPO"] = REPO
         cmd = ["go", "test", "-tags", "verif", "-count=1", "-vet=off", "-run", "^" + run + "$",
                "-timeout", "%ds" % int(timeout), "./" + pkg + "/"]
         if args:
@@ -209,7 +221,7 @@ class Check:
         t0 = time.time()
         with open(logp, "w") as fo:
             try:
-                p = subprocess.run(cmd, cwd=HARNESS, env=e, stdout=fo, stderr=subprocess.STDOUT,
+                p = subprocess.run(cmd, cwd=hdir, env=e, stdout=fo, stderr=subprocess.STDOUT,
                                    timeout=timeout + 120)
                 rc = p.returncode
             except subprocess.TimeoutExpired:
@@ -243,6 +255,9 @@ class Check:
     # ---------------------------------------------------------------- verdicts
     def report(self, sig, text, detail=None):
         """Report a property-level mismatch.  Known findings are printed and do not fail."""
+        if sig.startswith("infra:"):
+            self.infra.append("%s: %s" % (sig, text))
+            return
         for k in self._known:
             if k.get("status") == "known" and k.get("property") == self.prop and sig_match(k, sig):
                 if not any(h["sig"] == sig for h in self.known_hits):
